@@ -337,7 +337,9 @@ class RF24Mesh(RF24MeshNoMaster):
         if msg_t == MESH_ADDR_REQUEST and self.frame_buf.header.reserved:
             self._do_dhcp = True
         if not self.lookup_node_id():  # if this is the master node
-            if msg_t in (MESH_ADDR_LOOKUP, MESH_ID_LOOKUP):
+            if msg_t in (MESH_ADDR_LOOKUP, MESH_ID_LOOKUP) and len(
+                self.frame_buf.message
+            ) >= (1 if msg_t == MESH_ADDR_LOOKUP else 2):
                 self.frame_buf.header.to_node = self.frame_buf.header.from_node
 
                 ret_val = 0  # will be -2 for requesting un-assigned nodes
